@@ -179,6 +179,18 @@ def check(ctx, mod, fn):
         rep.ok('F5b', fn.name, 'val[ne+nec + i*nec + ii] = opr(val[i], val[ne+ii]) over i < ne, ii < nec; written cells behind all cells still read; extent ne+nec+ne*nec',
                sample={'index': str(widx), 'box': [str(Ti), str(Tii)]})
     # ---- F5c folds
+    guards = {}     # loop header name -> conditions of the enclosing ifs
+    def collect(tree_, conds_):
+        for t in tree_:
+            if t[0] == 'loop':
+                guards[t[5].header.name] = conds_
+                collect(t[3], conds_)
+            elif t[0] == 'if':
+                collect(t[2], conds_ + (t[1],))
+                collect(t[3], conds_ + (t[1].neg(),))
+            elif t[0] == 'exitif':
+                collect(t[2], conds_ + (t[1],))
+    collect(tree, ())
     probs = []
     nfold = 0
     tables = set()
@@ -214,6 +226,11 @@ def check(ctx, mod, fn):
             continue
         tb = str(rest.args[0]).replace('F_', '')
         tables.add(tb)
+        # the accumulation over an optional table runs exactly when that table is present
+        gs = [canon(sp.sympify(c_.a) - sp.sympify(c_.b)) for c_ in guards.get(chain[1].header.name, ()) if c_.pred == 'ne']
+        tabs = [str(g_).replace('F_', '') for g_ in gs if isinstance(g_, sp.Basic) and g_.is_Symbol and str(g_).startswith('F_mk')]
+        if tabs != [tb]:
+            probs.append('the accumulation over %s is guarded by the presence of %s' % (tb, tabs or 'nothing'))
         tix = sp.expand(rest.args[1])
         parts = [t for t in tix.atoms(sp.Function) if t.func == ld and str(t.args[0]) == 'F_idx']
         got = set(sp.expand(t.args[1]) for t in parts)
